@@ -847,7 +847,7 @@ def gen_requests(M, rng, n):
     TV = ["x", "", "a:b", ":", " lead", "trail ", "  ", "t\t", " nb ", "é", "5"]
     for cname in TT:
         types = tuple_types(tt, cname)
-        for t in types[:3] + ["nope", "", " " + types[0]]:
+        for t in types[:3] + ["nope", "", " " + types[0], types[0] + " ", "\t" + types[-1], types[0].upper(), types[0][:1] + " " + types[0][1:]]:
             for v in TV[:6]:
                 reqs.append(["tt.new", cname, t, v])
         reqs.append(["tt.new", cname, types[0], 5])
@@ -1618,6 +1618,61 @@ class Oracle(AliasOracle, FailOracle):
         except Exception as e:
             self.bad("typed_tuple:raises:%s" % kind(e), "typed tuple codec raises on a valid tuple", case)
 
+    def ttuple_name(self, cname, t, v, via):
+        """A type NAME given as written (blanks in front / behind / inside, other case, empty) through an entry point that takes it
+        literally: the keyword constructor, or the re-parse setter on "name:value".  Refusing it is fine (nothing is built; the
+        tuple re-parsed keeps what it had).  If it is ACCEPTED the tuple is a value like any other: its own encoding decodes
+        (fromstring= and parse_from_string) to the same type and value, and re-encodes to the same text."""
+        tt = self.M[6]
+        C = getattr(tt, cname)
+        case = {"kind": "ttuple_name", "class": cname, "type": t, "val": v, "via": via}
+        base = tuple_types(tt, cname)
+        st = t.strip()
+        shape = ("exact" if t in base else "empty" if t == "" else "blank-only" if st == "" else
+                 "leading-blank" if st in base and t != t.lstrip() and t == t.rstrip() else
+                 "trailing-blank" if st in base and t == t.lstrip() else "blanks-around" if st in base else
+                 "inner-blank" if "".join(t.split()) in base else "case-variant" if t.lower() in [b.lower() for b in base] else
+                 "separator-inside" if ":" in t else "other")
+        first = base[1] if base[0] == t else base[0]
+        try:
+            if via == "new":
+                try:
+                    x = C(atype=t, aval=v)
+                except Exception as e:        # refused (the unchanged constructor refuses with a TypeError out of its own error text)
+                    self.res.count("ttuple-name:refused:new:" + kind(e))
+                    return
+            else:
+                x = C(atype=first, aval="kept")
+                try:
+                    x.parse_from_string(t + ":" + v)
+                except Exception as e:
+                    self.res.count("ttuple-name:refused:parse:" + kind(e))
+                    if (x.type, x.val) != (first, "kept"):
+                        self.bad("typed_tuple:name:%s:parse:refused-but-changed" % shape, "a refused re-parse changed the tuple", case,
+                                 observed=[x.type, to_wire(x.val)])
+                    return
+            self.res.count("ttuple-name:accepted:" + shape)
+            s = x.get_as_string()
+            for how in ("fromstring", "parse"):
+                try:
+                    if how == "fromstring":
+                        y = C(fromstring=s)
+                    else:
+                        y = C(atype=first, aval="")
+                        y.parse_from_string(s)
+                except Exception as e:
+                    self.bad("typed_tuple:name:%s:%s:own-encoding-refused" % (shape, how), "an accepted tuple's own encoding %r is refused (%s)" % (s, kind(e)), case)
+                    continue
+                if (y.type, y.val) != (x.type, x.val) or not y.check_type(x) or not x.check_type(y):
+                    self.bad("typed_tuple:name:%s:%s:decodes-to-other-tuple" % (shape, how),
+                             "a tuple accepted with type name %r does not decode from its own encoding %r to an equal tuple" % (t, s), case,
+                             expected=[x.type, to_wire(x.val)], observed=[y.type, to_wire(y.val)])
+                elif y.get_as_string() != s:
+                    self.bad("typed_tuple:name:%s:%s:reencode-differs" % (shape, how), "re-encoding differs", case, expected=s, observed=y.get_as_string())
+        except Exception as e:
+            self.bad("typed_tuple:name:%s:raises:%s" % (shape, kind(e)), "typed tuple raises", case)
+
+
     # ------------------------------------------------------------------
     # histories: aliasing and hidden state.  Rule: after ANY sequence of API calls and of in-place changes to objects
     # the caller owns (what it passed in, what it got back), every instance is still self-consistent (its value is
@@ -1923,6 +1978,8 @@ class Oracle(AliasOracle, FailOracle):
             self.maintenance([tuple(e) for e in c["entries"]], c.get("unknown_entry_key"))
         elif k == "ttuple":
             self.ttuple(c["class"], c["type"], c["val"])
+        elif k == "ttuple_name":
+            self.ttuple_name(c["class"], c["type"], c["val"], c["via"])
         elif not self.run_alias_case(c) and not self.run_fail_case(c):
             raise ValueError("unknown case kind %s" % k)
 
@@ -2066,10 +2123,24 @@ def battery(M):
         for t in tuple_types(tt, cname):
             for v in TV:
                 B["TypedTuple"].append({"kind": "ttuple", "class": cname, "type": t, "val": v})
+    for cname in TT:                                    # type NAMES as written: blanks around / inside, case variants, empty
+        ts = tuple_types(tt, cname)
+        for t in ts[:3] + ts[-1:]:
+            for nm in name_variants(t):
+                for via in ("new", "parse"):
+                    for v in ("v", "a:b"):
+                        B["TypedTuple"].append({"kind": "ttuple_name", "class": cname, "type": nm, "val": v, "via": via})
     B["TypedTuple"] += [{"kind": "ttuple", "class": "Label", "type": "mac", "val": "trail "}, {"kind": "ttuple", "class": "Label", "type": "vlan", "val": "  "},
                         {"kind": "ttuple", "class": "Capacity", "type": "ram", "val": 1000}, {"kind": "ttuple", "class": "Capacity", "type": "cpu", "val": 0}]
     fail_battery(M, B)          # every class: calls that are REJECTED must leave the value as it was (lib_c03fail)
     return B
+
+
+def name_variants(t):
+    """a type name as hand-written descriptions have it: blanks / tabs / newlines around and inside, other case, empty"""
+    mid = max(len(t) // 2, 1)
+    return [t, " " + t, "\t" + t, "\n" + t, "  " + t, t + " ", t + "\t", t + "\n", " " + t + " ", t[:mid] + " " + t[mid:], t.upper(), t.capitalize(),
+            t.swapcase(), "", " ", "\u00a0" + t, t + "\u00a0", t + ":x", "\ufeff" + t]
 
 
 def random_cases(M, rng, n):
@@ -2103,6 +2174,18 @@ def random_cases(M, rng, n):
             if pool and rng.random() < 0.3:
                 kw[f] = [rng.choice(pool) for _ in range(rng.choice([0, 1, 2, 4]))] if rng.random() < 0.7 else rng.choice(pool)
         out.append({"kind": "alias_jf", "class": C.__name__, "kw": to_wire(kw)})
+    BL = ["", "", " ", "\t", "\n", "  ", "\r", "\u00a0"]
+    for i in range(m):                                  # typed tuples: type names with blanks around / inside, other case
+        cname = rng.choice(list(TT))
+        t = rng.choice(tuple_types(tt, cname))
+        k = rng.random()
+        if k < 0.2:
+            j = rng.randrange(len(t) + 1)
+            t = t[:j] + rng.choice(BL[2:]) + t[j:]
+        elif k < 0.3:
+            t = rng.choice([t.upper(), t.capitalize(), t.swapcase()])
+        nm = rng.choice(BL) + t + rng.choice(BL)
+        out.append({"kind": "ttuple_name", "class": cname, "type": nm, "val": rng.choice(["v", "", "a:b", "1", "x y"]), "via": rng.choice(["new", "parse"])})
     TAGS = ["a", "tag-1", "under_score", "A" * 255, "é", "0", "x" * 17]
     for i in range(m):
         ts = [rng.choice(TAGS) for _ in range(rng.choice([1, 2, 3, 8]))]
@@ -2307,7 +2390,7 @@ def group_of(case):
     if k in ("jsonfield", "update", "jf_history", "jsondata", "jd_history"):
         return case["class"]
     return {"tags": "Tags", "tags_history": "Tags", "gateway": "Gateway", "gw_history": "Gateway", "maintenance": "MaintenanceInfo",
-            "mi_history": "MaintenanceInfo", "ttuple": "TypedTuple"}.get(k) or ("ERO" if case.get("ero") else "PathInfo")
+            "mi_history": "MaintenanceInfo", "ttuple": "TypedTuple", "ttuple_name": "TypedTuple"}.get(k) or ("ERO" if case.get("ero") else "PathInfo")
 
 
 def settle(res, order):
